@@ -394,9 +394,19 @@ func (g *globGen) stmts(n, depth int, boardRoot bool) []*LStmt {
 			}
 			if len(inner) > 0 && r.P(0.25) {
 				// the same glob text declared in the enclosing scope *after* the inner block
+				// (not when this block already holds that text: a verbatim repetition inside one
+				// scope is finding FL09's trigger)
 				c := LClone([]*LStmt{Pick(r, inner)})[0]
-				g.encl[me] = append(g.encl[me], c)
-				out = append(out, c)
+				dup := false
+				for _, o := range g.encl[me] {
+					if LRender([]*LStmt{o}) == LRender([]*LStmt{c}) {
+						dup = true
+					}
+				}
+				if !dup {
+					g.encl[me] = append(g.encl[me], c)
+					out = append(out, c)
+				}
 			}
 			sibling = append(sibling, inner...)
 		}
@@ -414,6 +424,11 @@ func (g *globGen) stmts(n, depth int, boardRoot bool) []*LStmt {
 		}
 		if len(cands) > 0 && r.P(0.45) {
 			c := LClone([]*LStmt{Pick(r, cands)})[0]
+			for _, o := range g.encl[me] {
+				if LRender([]*LStmt{o}) == LRender([]*LStmt{c}) {
+					return out // this block already declares that text
+				}
+			}
 			at := 0
 			if len(out) > 0 {
 				at = r.Range(0, len(out)-1)
